@@ -80,6 +80,9 @@ def dequeRemove {α : Type} (l : List α) (i : Nat) : Option α × List α := (l
 /-- `HashMap::remove(key)`: the removed entry (if any) and the map afterwards -/
 def mapRemove (m : Store K V) (k : K) : Option (Entry V) × Store K V := (lookup k m, eraseKey k m)
 
+/-- `HashMap::clear` / `VecDeque::clear` -/
+def clearAll {α : Type} (_l : List α) : List α := []
+
 /-- `deque.retain(p)` -/
 def retain {α : Type} (l : List α) (p : α → Bool) : List α := l.filter p
 
